@@ -202,6 +202,11 @@ def judge_c03(ctx, idx, op, impl, mi, ms, reason):
 
 
 def judge_c04(ctx, idx, op, impl, mi, ms, reason):
+    if op[0] == "envchild":
+        ctx.count("envchild_" + impl.split(" ")[0])
+        if impl not in ("ok", "err"):
+            return [Finding("property", idx, "with %s=%s in the environment of a fresh process, decoding and displaying a well-formed frame ended in `%s`" % (op[1], op[2], impl), expected="ok", observed=impl, name="C04_no_panic")]
+        return same(ctx, idx, op, impl, mi, "a well-formed Credit-Control request under the built-in dictionary")
     if op[0] != "decq":
         return same(ctx, idx, op, impl, mi, "dictionary set-up")
     icls = impl.split(" ")[0]
@@ -1050,7 +1055,7 @@ PROPS = {
     "C01": dict(family="c01", judge=judge_c01, probes=("enc", "len", "dump"), title="Encoded bytes are exactly the RFC 6733 wire format"),
     "C02": dict(family="c02", extra=shipped_defs, judge=judge_c02, probes=("rt",), title="Encode then decode returns the same message"),
     "C03": dict(family="c03", judge=judge_c03, probes=("dec", "decat", "deca", "decg", "tables"), expect_keys=["tables", 'reason_e_addr', 'reason_e_app', 'reason_e_cmd', 'reason_e_eof', 'reason_e_mismatch', 'reason_e_short', 'reason_e_unknownAvp', 'reason_e_utf8', 'reason_ok_lie0', 'reason_ok_lie1', 'refused_too_deep', 'deca_ok', 'deca_err', 'decg_ok', 'decg_err', 'full', 'notfull'], title="Decoding is faithful"),
-    "C04": dict(family="c04", extra=shipped_defs, judge=judge_c04, probes=("decq",), expect_keys=['reason_e_addr', 'reason_e_app', 'reason_e_cmd', 'reason_e_eof', 'reason_e_mismatch', 'reason_e_short', 'reason_e_unknownAvp', 'reason_e_utf8', 'reason_e_deep', 'reason_ok', 'depth_32'], title="The decoder is total"),
+    "C04": dict(family="c04", extra=shipped_defs, judge=judge_c04, probes=("decq", "envchild"), expect_keys=['reason_e_addr', 'reason_e_app', 'reason_e_cmd', 'reason_e_eof', 'reason_e_mismatch', 'reason_e_short', 'reason_e_unknownAvp', 'reason_e_utf8', 'reason_e_deep', 'reason_ok', 'depth_32'], title="The decoder is total"),
     "C05": dict(family="c05", judge=judge_c05, probes=("ench", "encw", "senc"), expect_keys=["senc_ok", "senc_err", "ench_ok", "ench_err_unrepresentable", "encw_ok", "encw_err", "encw_err_unrepresentable", "encw_fault_inside_frame", "encw_mode_1_2_zero", "encw_mode_0_0_err"], title="Encoding never reports success for a frame it did not fully produce"),
     "C06": dict(family="c06", judge=judge_c06, probes=("sdec", "sdecnt", "senc"), title="Stream framing is independent of how bytes are segmented"),
     "C07": dict(family="c07", judge=judge_c07, probes=("sdec", "sdecnt", "sdecmany"), expect_keys=["L_gt1MiB_err", "L_inrange_err", "L_inrange_ok", "L_lt20_err"], title="Hostile frame lengths on a stream are refused cheaply and safely"),
